@@ -72,6 +72,17 @@ class StateVector(np.ndarray):
         """For pickling"""
         object.__setattr__(self, "_data", state)
 
+    def __copy__(self):
+        """For the :py:mod:`copy` module
+
+        The array handed back by numpy owns its data (its ``base`` is ``None``)
+        and could neither be copied nor converted.
+        """
+        return self.copy()
+
+    def __deepcopy__(self, memo):
+        return self.copy()
+
     def copy(self, *, frame=None, form=None, same=None):
         """Provide a new object of the same point in space-time. Optionally,
         allow for frame and form conversion
